@@ -37,6 +37,7 @@ type c07Case struct {
 	WriteFail []int  `json:"write_failure_at"`
 	Delay     int    `json:"writer_delay_mode"` // 0 none, 1 Gosched, 2 sleep 20us every 16th, 3 sleep 1ms every 256th
 	GenBuf    int    `json:"request_channel_buffer"`
+	ErrLagMs  int    `json:"error_reader_starts_after_ms"` // a consumer of the error stream that lags behind (errors queue up in the 100-slot buffers)
 }
 
 type c07ReqGen struct {
@@ -169,6 +170,9 @@ func c07Check(c c07Case) *kit.Verdict {
 	v.Label("filler=%s", c.Filler)
 	v.Label("workers=%s", bucket(c.Workers, 1, 2, 8, 32))
 	v.Label("len=%s", bucket(c.N, 0, 1, 100, 1000))
+	if c.ErrLagMs > 0 {
+		v.Label("lagging-error-consumer")
+	}
 	nerr := len(c.ReqErr) + len(c.BuildFail) + len(c.WriteFail)
 	v.NonTrivial = c.N > 100 && c.Workers >= 2 && nerr >= 1
 	mk := func(pos []int, what string) map[int]error {
@@ -235,6 +239,9 @@ func c07Check(c c07Case) *kit.Verdict {
 	errDone := make(chan struct{})
 	go func() {
 		defer close(errDone)
+		if c.ErrLagMs > 0 {
+			time.Sleep(time.Duration(c.ErrLagMs) * time.Millisecond)
+		}
 		for e := range errc {
 			errMu.Lock()
 			got[e.Error()]++
@@ -347,7 +354,7 @@ func c07Positions(t *rapid.T, label string, n int) []int {
 	if n == 0 {
 		return nil
 	}
-	k := rapid.SampledFrom([]int{0, 0, 1, 2, 5, 120}).Draw(t, label+"-count")
+	k := rapid.SampledFrom([]int{0, 0, 1, 2, 5, 120, 400}).Draw(t, label+"-count")
 	set := map[int]bool{}
 	for i := 0; i < k; i++ {
 		switch rapid.IntRange(0, 3).Draw(t, label+"-where") {
@@ -371,7 +378,7 @@ func TestC07Pipeline(t *testing.T) {
 	maxN := kit.EnvInt("C07_MAXN", 3000)
 	kit.Run(t, kit.Spec[c07Case]{
 		Prop: "C07",
-		Rule: "request stream of length 0..3000 (> every 100-slot buffer) with generator errors, build failures and write failures at drawn positions (first, last, anywhere; 0..120 each) x real filler (tcp/udp/icmp/arp, both link modes) x 1..64 packet-building workers x writer delay mode x request channel buffering, assembled with scan.NewPacketSource/NewPacketMultiGenerator/SetupPacketEngine exactly as the commands do; run under the race detector with GOMAXPROCS varied per shard. Oracle: multiset(frames handed to the wire) = multiset(frames built), entry snapshot = exit snapshot of every write, each request built once, multiset(errors) = injected failures (unique values), completion only after the last write. non-trivial: >100 requests, >=2 workers, >=1 injected error; distinct by case",
+		Rule: "request stream of length 0..3000 (> every 100-slot buffer) with generator errors, build failures and write failures at drawn positions (first, last, anywhere; 0..400 each, i.e. more than the two 100-slot error buffers) x an error consumer that starts at once or lags 20/120 ms x real filler (tcp/udp/icmp/arp, both link modes) x 1..64 packet-building workers x writer delay mode x request channel buffering, assembled with scan.NewPacketSource/NewPacketMultiGenerator/SetupPacketEngine exactly as the commands do; run under the race detector with GOMAXPROCS varied per shard. Oracle: multiset(frames handed to the wire) = multiset(frames built), entry snapshot = exit snapshot of every write, each request built once, multiset(errors) = injected failures (unique values), completion only after the last write. non-trivial: >100 requests, >=2 workers, >=1 injected error; distinct by case",
 		Gen: func(t *rapid.T) c07Case {
 			c := c07Case{Filler: rapid.SampledFrom([]string{"tcp", "udp", "icmp", "arp"}).Draw(t, "filler"), VPN: rapid.Bool().Draw(t, "vpn")}
 			c.Workers = rapid.SampledFrom([]int{1, 2, 3, 4, 8, 16, 33, 64}).Draw(t, "workers")
@@ -384,6 +391,7 @@ func TestC07Pipeline(t *testing.T) {
 			c.WriteFail = c07Positions(t, "writefail", c.N)
 			c.Delay = rapid.IntRange(0, 3).Draw(t, "delay")
 			c.GenBuf = rapid.SampledFrom([]int{0, 1, 100}).Draw(t, "genbuf")
+			c.ErrLagMs = rapid.SampledFrom([]int{0, 0, 0, 20, 120}).Draw(t, "errlag")
 			return c
 		},
 		Check: c07Check,
